@@ -62,6 +62,9 @@ type ShipConnection struct {
 
 	shutdownOnce sync.Once
 
+	// the end of this connection is reported exactly once, no matter which close paths are taken
+	closedReportOnce sync.Once
+
 	// buffer for SPINE messages that came in before the handshake was completed
 	spineBuffer [][]byte
 
@@ -186,7 +189,7 @@ func (c *ShipConnection) CloseConnection(safe bool, code int, reason string) {
 
 				//
 				c.dataWriter.CloseDataConnection(4001, "close")
-				c.infoProvider.HandleConnectionClosed(c, handshakeEnd)
+				c.reportConnectionClosed(handshakeEnd)
 			}()
 			return
 		}
@@ -197,7 +200,15 @@ func (c *ShipConnection) CloseConnection(safe bool, code int, reason string) {
 		}
 		c.dataWriter.CloseDataConnection(closeCode, reason)
 
-		c.infoProvider.HandleConnectionClosed(c, handshakeEnd)
+		c.reportConnectionClosed(handshakeEnd)
+	})
+}
+
+// report the end of this connection
+// local close, the close handshake with the remote service and connection errors may coincide
+func (c *ShipConnection) reportConnectionClosed(handshakeCompleted bool) {
+	c.closedReportOnce.Do(func() {
+		c.infoProvider.HandleConnectionClosed(c, handshakeCompleted)
 	})
 }
 
